@@ -532,6 +532,16 @@ func genFloat(r *rand.Rand, nan bool) uint32 {
 	}
 }
 
+// genFiniteFloat: no infinities (encoding/json refuses them, so a change carrying one in a float leaf-list fails validation)
+func genFiniteFloat(r *rand.Rand) uint32 {
+	for {
+		b := genFloat(r, false)
+		if f := math.Float32frombits(b); !math.IsInf(float64(f), 0) {
+			return b
+		}
+	}
+}
+
 type gcase struct {
 	g       *gnmi.TypedValue
 	nilPath bool
@@ -842,7 +852,7 @@ func leafDefs() []leafDef {
 		{"s", configapi.ValueType_STRING, nil, func(r *rand.Rand) *gnmi.TypedValue { return gS(genStr(r, false)) }},
 		{"b", configapi.ValueType_BOOL, nil, func(r *rand.Rand) *gnmi.TypedValue { return gB(r.Intn(2) == 0) }},
 		{"y", configapi.ValueType_BYTES, nil, func(r *rand.Rand) *gnmi.TypedValue { return gY(genBytes(r)) }},
-		{"f", configapi.ValueType_FLOAT, nil, func(r *rand.Rand) *gnmi.TypedValue { return gF(genFloat(r, false)) }},
+		{"f", configapi.ValueType_FLOAT, nil, func(r *rand.Rand) *gnmi.TypedValue { return gF(genFiniteFloat(r)) }},
 		{"inoopt", configapi.ValueType_INT, nil, func(r *rand.Rand) *gnmi.TypedValue { return gI(genInt(r, 64)) }},
 		{"ls", configapi.ValueType_LEAFLIST_STRING, nil, func(r *rand.Rand) *gnmi.TypedValue {
 			return llOf(r, func() *gnmi.TypedValue { return gS(genStr(r, r.Intn(12) == 0)) })
@@ -860,7 +870,7 @@ func leafDefs() []leafDef {
 			})
 		}},
 		{"lf", configapi.ValueType_LEAFLIST_FLOAT, nil, func(r *rand.Rand) *gnmi.TypedValue {
-			return llOf(r, func() *gnmi.TypedValue { return gF(genFloat(r, false)) })
+			return llOf(r, func() *gnmi.TypedValue { return gF(genFiniteFloat(r)) })
 		}},
 	}
 	for _, w := range widths {
@@ -922,7 +932,30 @@ func endToEnd(r *rand.Rand, out *bufio.Writer, seed int64, n int) {
 		}
 		docsBefore := plugin.NumDocs()
 		ctx, cancel := context.WithTimeout(context.Background(), 20*time.Second)
-		resp, err := e.Gnmi.Set(ctx, &gnmi.SetRequest{Update: []*gnmi.Update{{Path: path, Val: g}}, Extension: []*gnmi_ext.Extension{asyncExt()}})
+		type setRes struct {
+			resp *gnmi.SetResponse
+			err  error
+		}
+		done := make(chan setRes, 1)
+		go func(srv *env.Env) {
+			resp, err := srv.Gnmi.Set(ctx, &gnmi.SetRequest{Update: []*gnmi.Update{{Path: path, Val: g}}, Extension: []*gnmi_ext.Extension{asyncExt()}})
+			done <- setRes{resp, err}
+		}(e)
+		var resp *gnmi.SetResponse
+		var err error
+		select {
+		case sr := <-done:
+			resp, err = sr.resp, sr.err
+		case <-time.After(25 * time.Second):
+			// the handler does not answer (a transaction that failed validation is never reported): start afresh
+			cancel()
+			line("Unanswered", "-", "-", "-", "-", "-")
+			e.StopControllers()
+			e = env.New(0, plugin)
+			e.Topo.AddTarget("t1", "devicesim", "1.0.0", false, false)
+			e.StartControllers(false)
+			continue
+		}
 		cancel()
 		if err != nil {
 			line(status.Code(err).String(), "-", "-", "-", "-", "-")
